@@ -10,7 +10,7 @@ warnings.filterwarnings('ignore')
 
 TF = segyio.TraceField
 # fields that drive segyio / converter behaviour and are therefore set by the geometry, not the header model
-RESERVED = {37, 109, 115, 117, 189, 193}
+RESERVED = {37, 109, 115, 117, 189, 193, 215}   # 215 scales the delay recording time in segyio
 FREE_KEYS = [k for k in KEYS if k not in RESERVED]
 
 VALUE_KINDS = ['smooth', 'noise', 'const', 'zeros', 'ramp', 'huge', 'neg', 'tiny']
